@@ -114,7 +114,8 @@ class ArffAttrReader(Filter[Iterable[str], Iterable[Tuple[str,Callable]]]):
                 #there is a bug in ARFF where the first class value in an ARFF class can will dropped from the
                 #actual data because it is encoded as 0. Therefore, our ARFF reader automatically adds a 0 value
                 #to all sparse categorical one-hot encoders to protect against this.
-                categories = ["0"] + categories
+                #(a declared "0" level keeps its place, adding a second one would make the encoder sort the levels)
+                if "0" not in categories: categories = ["0"] + categories
 
             return ArffAttrReader.CategoricalDict(CategoricalEncoder(categories)._categoricals).__getitem__
 
